@@ -2,6 +2,8 @@ package main
 
 import (
 	"fmt"
+	"os"
+	"go/ast"
 	"go/types"
 	"strings"
 
@@ -162,9 +164,60 @@ func (e *Exec) dynamicCall(cc *callCtx, fv Val) Val {
 	name := cc.common.Value.Name()
 	// uninterpreted result of (callee identity, args) for pure callbacks
 	if e.rootCtr != nil && e.rootCtr.PureCallbacks[name] {
-		return e.uninterp("cb_"+cleanSym(funcKey(e.rootFn)+"_"+name), cc.args, cc.resT)
+		return e.pureCallback(fv, cc.args, cc.resT)
+	}
+	if e.rootCtr != nil && cc.f == e.rootFrame {
+		if cb := e.rootCtr.Callbacks[name]; cb != nil {
+			if cb.WritesArg >= 0 && cb.WritesArg < len(cc.args) {
+				// the callback may change anything in the footprint of that argument
+				arg := cc.args[cb.WritesArg]
+				r := e.refOfVal(arg)
+				e.frameWriteRef(cc.f, cc.st, cc.reach, r, "callback "+name+" writes its argument")
+				for _, c := range append([]string{}, e.compOrder...) {
+					so := e.compSort[c]
+					if !strings.HasPrefix(so, "(Array Int ") {
+						continue
+					}
+					if strings.HasPrefix(c, "OM_") || (deref(arg.T) != nil && c == "H_"+e.reg.typeId(deref(arg.T))) {
+						e.havocCompAt(cc.st, c, r)
+					}
+				}
+			}
+			for _, pn := range cb.Extra {
+				pv, ok := e.rootEnv(cc.f, cc.st).vars[pn]
+				if !ok {
+					continue
+				}
+				r := e.writeTargetRef(pv)
+				e.frameWriteRef(cc.f, cc.st, cc.reach, r, "callback "+name+" writes "+pn)
+				for _, c := range append([]string{}, e.compOrder...) {
+					if strings.HasPrefix(e.compSort[c], "(Array Int ") && strings.HasPrefix(c, "H_") {
+						if el := deref(pv.T); el != nil {
+							// the cell of the parameter's own type and of struct types embedding it
+							_ = el
+						}
+						e.havocCompAt(cc.st, c, r)
+					}
+				}
+			}
+			res := e.havocVal(cc.resT, cc.f.prefix+"cb")
+			e.refBoundNew(cc.st, res)
+			return res
+		}
 	}
 	return e.havocVal(cc.resT, cc.f.prefix+"dyn")
+}
+
+// pureCallback: the value a side-effect-free callback returns, as an uninterpreted function of the
+// function value and the arguments.
+func (e *Exec) pureCallback(fv Val, args []Val, resT types.Type) Val {
+	name := "cb"
+	all := append([]Val{{T: tInt, Term: e.asTerm(fv)}}, args...)
+	for _, a := range all {
+		name += "_" + mangleSort(e.reg.sortOf(a.T))
+	}
+	name += "__" + mangleSort(e.reg.sortOf(resT))
+	return e.uninterpInline(name, all, resT)
 }
 
 // uninterp applies an uninterpreted function symbol to first-class argument terms.
@@ -291,6 +344,8 @@ type paramMod struct {
 	kind int // 0 whole, 1 argument i, 2 binding i, 3 literal/global constant term
 	idx  int
 	term Term
+	path string     // "#i.j": only this field of the cell
+	rootT types.Type
 }
 
 func modsKey(fn *ssa.Function, args, bindings []Val) string {
@@ -304,6 +359,8 @@ func modsKey(fn *ssa.Function, args, bindings []Val) string {
 					b.WriteString("+" + bb.Clo.Fn.String())
 				}
 			}
+		} else if a.Addr != nil {
+			fmt.Fprintf(&b, "|@%d:%s:%v", a.Addr.Kind, types.TypeString(a.Addr.Root, nil), a.Addr.Path)
 		} else {
 			b.WriteString("|-")
 		}
@@ -395,11 +452,22 @@ func (e *Exec) modsOfCall(fn *ssa.Function, args, bindings []Val, st *State) mod
 }
 
 func (e *Exec) parametrise(comp string, ref Term, args, bindings []Val) paramMod {
+	if i := strings.Index(ref, "#"); i >= 0 {
+		pm := e.parametrise(comp, ref[:i], args, bindings)
+		if pm.kind != 0 {
+			pm.path = ref[i:]
+			pm.rootT = e.compType[comp]
+		}
+		return pm
+	}
 	if ref == "" {
 		return paramMod{comp: comp, kind: 0}
 	}
 	for i, a := range args {
 		if len(a.Tup) == 0 && a.Addr == nil && a.Term == ref {
+			return paramMod{comp: comp, kind: 1, idx: i}
+		}
+		if len(a.Tup) == 0 && a.Addr != nil && a.Addr.Kind == addrHeap && a.Addr.Ref == ref {
 			return paramMod{comp: comp, kind: 1, idx: i}
 		}
 	}
@@ -425,18 +493,27 @@ func (e *Exec) instantiateMods(pm []paramMod, args, bindings []Val) modSet {
 			e.reg.useSort(so)
 			e.comp(&State{comps: map[string]Term{}}, p.comp, so)
 		}
+		if p.path != "" && p.rootT != nil {
+			if e.compType == nil {
+				e.compType = map[string]types.Type{}
+			}
+			e.compType[p.comp] = p.rootT
+		}
 		switch p.kind {
 		case 0:
 			ms.add(p.comp, "")
 		case 1:
 			if p.idx < len(args) && args[p.idx].Addr == nil && isAtom(args[p.idx].Term) {
-				ms.add(p.comp, args[p.idx].Term)
+				ms.add(p.comp, args[p.idx].Term+p.path)
+			} else if p.idx < len(args) && args[p.idx].Addr != nil && args[p.idx].Addr.Kind == addrHeap && isAtom(args[p.idx].Addr.Ref) {
+				// interior pointer argument (embedded struct): same shape as in the memoised run (part of the key)
+				ms.add(p.comp, args[p.idx].Addr.Ref+p.path)
 			} else {
 				ms.add(p.comp, "")
 			}
 		case 2:
 			if p.idx < len(bindings) && bindings[p.idx].Addr == nil && isAtom(bindings[p.idx].Term) {
-				ms.add(p.comp, bindings[p.idx].Term)
+				ms.add(p.comp, bindings[p.idx].Term+p.path)
 			} else {
 				ms.add(p.comp, "")
 			}
@@ -444,7 +521,7 @@ func (e *Exec) instantiateMods(pm []paramMod, args, bindings []Val) modSet {
 			if strings.HasPrefix(p.term, "glob_") && !e.declared[p.term] {
 				ms.add(p.comp, "")
 			} else {
-				ms.add(p.comp, p.term)
+				ms.add(p.comp, p.term+p.path)
 			}
 		case 4:
 			if ms[p.comp] == nil {
@@ -460,6 +537,11 @@ func (e *Exec) callByContract(cc *callCtx, fn *ssa.Function, ctr *FuncContract, 
 	f := cc.f
 	env := e.contractEnv(fn, ctr, cc.args, nil, cc.st, cc.st)
 	env.frame = nil
+	for i, fv := range fn.FreeVars {
+		if i < len(bindings) {
+			env.vars[fv.Name()] = bindings[i]
+		}
+	}
 	for _, cl := range ctr.Requires {
 		t, err := e.evalBool(env, cl.Expr)
 		if err != nil {
@@ -473,8 +555,15 @@ func (e *Exec) callByContract(cc *callCtx, fn *ssa.Function, ctr *FuncContract, 
 	for _, gi := range e.allGlobalInvs(cc.st, cc.st) {
 		e.oblige("ginv", "call."+ctr.Name, gi.cl.Props, cc.reach, gi.term, "package invariant holds before calling "+ctr.Name+": "+gi.cl.Text, "global-invariant "+gi.cl.Text)
 	}
+	e.checkCallbackArgs(cc, fn, ctr)
 	pre := cc.st.clone()
 	ms := e.modsOfCall(fn, cc.args, bindings, cc.st)
+	if os.Getenv("GOVC_DEBUG") != "" && e.discovery == 0 {
+		fmt.Fprintf(os.Stderr, "DEBUG call %s mods:\n", ctr.Name)
+		for _, m := range sortedKeys(ms) {
+			fmt.Fprintf(os.Stderr, "   %s %v\n", m, sortedKeys(ms[m]))
+		}
+	}
 	for k := range ms {
 		if strings.HasPrefix(k, "VISITED_") || strings.HasPrefix(k, "CALLED_") || strings.HasPrefix(k, "COUNT_") {
 			delete(ms, k) // ghost flags describe the caller's own body (including inlined code) only
@@ -508,7 +597,21 @@ func (e *Exec) callByContract(cc *callCtx, fn *ssa.Function, ctr *FuncContract, 
 				continue
 			}
 			old := e.comp(cc.st, m, so)
+			nlog := len(e.wlog)
 			e.havocComp(cc.st, m)
+			// the write log records what the callee may touch from the caller's point of view: its targets only
+			e.wlog = e.wlog[:nlog]
+			for _, t := range targets {
+				if t.member == nil {
+					e.wlog = append(e.wlog, writeRec{m, t.single})
+				} else {
+					e.wlog = append(e.wlog, writeRec{m, ""})
+				}
+			}
+			if len(targets) == 0 {
+				// only memory allocated during the call: logged against a pseudo-fresh reference
+				e.wlog = append(e.wlog, writeRec{m, "@fresh"})
+			}
 			nw := cc.st.comps[m]
 			cond := []Term{app("<=", "rq", apre)}
 			for _, t := range targets {
@@ -545,7 +648,15 @@ func (e *Exec) callByContract(cc *callCtx, fn *ssa.Function, ctr *FuncContract, 
 		e.refBoundNew(cc.st, r)
 	}
 	env2 := e.contractEnv(fn, ctr, cc.args, rets, pre, cc.st)
+	for i, fv := range fn.FreeVars {
+		if i < len(bindings) {
+			env2.vars[fv.Name()] = bindings[i]
+		}
+	}
 	for _, cl := range append(append([]Clause{}, ctr.Ensures...), ctr.Tags...) {
+		if ctr.usesInternalNames(cl.Expr) {
+			continue // clause about the function's own intermediate values: not visible to callers
+		}
 		t, err := e.evalBool(env2, cl.Expr)
 		if err != nil {
 			panic(fmt.Sprintf("fatal: contract of %s: ensures %s: %v", ctr.Name, cl.Text, err))
@@ -734,6 +845,7 @@ func (e *Exec) appendOp(cc *callCtx) Val {
 	}
 	h := e.comp(st, n, so)
 	ls, lt := app("s_len", s.Term), app("s_len", t.Term)
+	e.noteIndexTerm(ls)
 	newLen := e.define(f.prefix+"applen", "Int", app("+", ls, lt))
 	fits := e.define(f.prefix+"appfits", "Bool", app("<=", newLen, app("s_cap", s.Term)))
 	// static length of the appended slice, if it is a freshly packed varargs array
@@ -750,8 +862,12 @@ func (e *Exec) appendOp(cc *callCtx) Val {
 		}
 		newRow := e.fresh(f.prefix+"approw", fmt.Sprintf("(Array Int %s)", es))
 		// fresh row: prefix copied (quantified), tail written
-		e.assume(fmt.Sprintf("(forall ((iq Int)) (! (=> (and (<= 0 iq) (< iq %s)) (= (select %s iq) (select (select %s %s) (+ %s iq)))) :pattern ((select %s iq))))",
-			ls, newRow, h, app("s_base", s.Term), app("s_off", s.Term), newRow), "append copies the prefix")
+		{
+			sb, so2 := app("s_base", s.Term), app("s_off", s.Term)
+			e.assumeForallInt("true", func(i Term) Term {
+				return Implies(And(app("<=", "0", i), app("<", i, ls)), Eq(Select(newRow, i), Select(Select(h, sb), app("+", so2, i))))
+			}, func(i Term) Term { return Select(newRow, i) }, "append copies the prefix")
+		}
 		for j := 0; j < k; j++ {
 			e.assume(Eq(Select(newRow, app("+", ls, IntLit(int64(j)))), Select(srcRow, app("+", app("s_off", t.Term), IntLit(int64(j))))), "")
 		}
@@ -760,7 +876,7 @@ func (e *Exec) appendOp(cc *callCtx) Val {
 		}
 		e.frameWriteRefIf(f, st, And(cc.reach, fits), app("s_base", s.Term), "append in place")
 		nh := Ite(fits, Store(h, app("s_base", s.Term), inRow), Store(h, fr, newRow))
-		e.setComp(st, n, so, nh)
+		e.setCompRefs(st, n, so, nh, app("s_base", s.Term), fr)
 		res := Ite(fits, app("mk_slice", app("s_base", s.Term), app("s_off", s.Term), newLen, app("s_cap", s.Term)), app("mk_slice", fr, "0", newLen, capv))
 		return Val{T: s.T, Term: e.define(f.prefix+"append", "Slice", res)}
 	}
@@ -771,14 +887,21 @@ func (e *Exec) appendOp(cc *callCtx) Val {
 	resBase := e.define(f.prefix+"appbase", "Int", Ite(fits, app("s_base", s.Term), fr))
 	resOff := e.define(f.prefix+"appoff", "Int", Ite(fits, app("s_off", s.Term), "0"))
 	e.assume(Eq(newH, Store(h, resBase, newRow)), "")
-	e.assume(fmt.Sprintf("(forall ((iq Int)) (! (=> (and (<= 0 iq) (< iq %s)) (= (select %s (+ %s iq)) (select (select %s %s) (+ %s iq)))) :pattern ((select %s (+ %s iq)))))",
-		ls, newRow, resOff, h, app("s_base", s.Term), app("s_off", s.Term), newRow, resOff), "append keeps the prefix")
-	e.assume(fmt.Sprintf("(forall ((iq Int)) (! (=> (and (<= 0 iq) (< iq %s)) (= (select %s (+ %s %s iq)) (select (select %s %s) (+ %s iq)))) :pattern ((select %s (+ %s %s iq)))))",
-		lt, newRow, resOff, ls, h, app("s_base", t.Term), app("s_off", t.Term), newRow, resOff, ls), "append copies the new elements")
+	{
+		sb, so2 := app("s_base", s.Term), app("s_off", s.Term)
+		tb, to2 := app("s_base", t.Term), app("s_off", t.Term)
+		e.assumeForallInt("true", func(i Term) Term {
+			return Implies(And(app("<=", "0", i), app("<", i, ls)), Eq(Select(newRow, app("+", resOff, i)), Select(Select(h, sb), app("+", so2, i))))
+		}, nil, "append keeps the prefix")
+		e.assumeForallInt("true", func(i Term) Term {
+			return Implies(And(app("<=", "0", i), app("<", i, lt)), Eq(Select(newRow, app("+", resOff, ls, i)), Select(Select(h, tb), app("+", to2, i))))
+		}, nil, "append copies the new elements")
+	}
 	// in place: cells outside [off+ls, off+ls+lt) of the base row are unchanged
 	e.assume(Implies(fits, fmt.Sprintf("(forall ((iq Int)) (! (=> (or (< iq (+ %s %s)) (>= iq (+ %s %s))) (= (select %s iq) (select (select %s %s) iq))) :pattern ((select %s iq))))",
 		app("s_off", s.Term), ls, app("s_off", s.Term), newLen, newRow, h, app("s_base", s.Term), newRow)), "append in place leaves other cells")
 	e.frameWriteRefIf(f, st, And(cc.reach, fits), app("s_base", s.Term), "append in place")
+	e.wlog = append(e.wlog, writeRec{n, app("s_base", s.Term)}, writeRec{n, fr})
 	st.comps[n] = newH
 	res := app("mk_slice", resBase, resOff, newLen, Ite(fits, app("s_cap", s.Term), capv))
 	return Val{T: s.T, Term: e.define(f.prefix+"append", "Slice", res)}
@@ -802,4 +925,77 @@ func staticSliceLen(v ssa.Value) int {
 		return -1
 	}
 	return int(arr.Len())
+}
+
+// checkCallbackArgs: closures passed for parameters with a callback specification must themselves be
+// under a contract whose writes clause stays inside what the specification allows.
+func (e *Exec) checkCallbackArgs(cc *callCtx, fn *ssa.Function, ctr *FuncContract) {
+	if len(ctr.Callbacks) == 0 || e.discovery > 0 || e.rootCtr == nil {
+		return
+	}
+	for i, p := range fn.Params {
+		var cb *CallbackSpec
+		if i < len(ctr.Params) {
+			cb = ctr.Callbacks[ctr.Params[i]]
+		}
+		if cb == nil {
+			cb = ctr.Callbacks[p.Name()]
+		}
+		if cb == nil || i >= len(cc.args) {
+			continue
+		}
+		arg := cc.args[i]
+		props := e.rootProps()
+		if arg.Clo == nil {
+			// a function value received from our own caller: it must carry the same specification there
+			pn := ""
+			if pp, ok := cc.common.Args[i-len(cc.args)+len(cc.common.Args)].(*ssa.Parameter); ok {
+				pn = pp.Name()
+			}
+			if own := e.rootCtr.Callbacks[pn]; own != nil && own.WritesArg == cb.WritesArg {
+				continue
+			}
+			e.oblige("frame", "callback."+ctr.Name, props, cc.reach, "false", "function value passed as callback "+p.Name()+" of "+ctr.Name+" has no known write discipline", "callback "+p.Name())
+			continue
+		}
+		cctr := e.W.contractFor(arg.Clo.Fn)
+		ok := cctr != nil && cctr.Writes != nil
+		if ok {
+			for j, ex := range cctr.Writes.Exprs {
+				id, isId := ex.(*ast.Ident)
+				allowed := false
+				if isId && cb.WritesArg >= 0 && cb.WritesArg < len(cctr.Params) && id.Name == cctr.Params[cb.WritesArg] && !cctr.Writes.Elems[j] {
+					allowed = true
+				}
+				if !allowed && !cctr.Writes.Elems[j] && len(cb.Extra) > 0 {
+					// the target must denote one of the callee's parameters listed in the specification
+					cenv := &Env{vars: map[string]Val{}, cur: cc.st, old: cc.st, fn: arg.Clo.Fn, ctr: cctr, lets: map[string]ast.Expr{}}
+					for k, fv := range arg.Clo.Fn.FreeVars {
+						if k < len(arg.Clo.Bindings) {
+							cenv.vars[fv.Name()] = arg.Clo.Bindings[k]
+						}
+					}
+					tv, err := e.eval(cenv, ex)
+					if err == nil {
+						var alts []Term
+						for _, pn := range cb.Extra {
+							for k, cpn := range ctr.Params {
+								if cpn == pn && k < len(cc.args) {
+									alts = append(alts, Eq(e.writeTargetRef(tv), e.writeTargetRef(cc.args[k])))
+								}
+							}
+						}
+						e.oblige("frame", "callback."+ctr.Name, props, cc.reach, Or(alts...), "closure "+arg.Clo.Fn.Name()+" writes "+cctr.Writes.Texts[j]+", which callback "+p.Name()+" of "+ctr.Name+" must be allowed to write", "callback "+p.Name())
+						allowed = true
+					}
+				}
+				if !allowed {
+					ok = false
+				}
+			}
+		}
+		if !ok {
+			e.oblige("frame", "callback."+ctr.Name, props, cc.reach, "false", "closure "+arg.Clo.Fn.Name()+" passed as callback "+p.Name()+" of "+ctr.Name+" needs a writes clause within the callback's allowance", "callback "+p.Name())
+		}
+	}
 }
